@@ -200,6 +200,13 @@ func dedupe(fails []vf.Failure) []vf.Failure {
 }
 
 func classify(text string) (nontrivial bool, cls string) {
+	// classification runs the code under test too: a panic here is the check's to
+	// report (checkParse does, under its guard), not a reason to lose the case
+	defer func() {
+		if r := recover(); r != nil {
+			nontrivial, cls = true, "panicked"
+		}
+	}()
 	l := parser.NewLexer(text)
 	toks, ok, _ := l.AllTokens(false)
 	if !ok {
@@ -324,7 +331,12 @@ func TestRandom(t *testing.T) {
 
 type span struct{ from, to int } // rune offsets [from,to)
 
-func tokenSpans(text string) []span {
+func tokenSpans(text string) (spans []span) {
+	defer func() {
+		if recover() != nil {
+			spans = nil // the lexer's panic is reported by checkParse on the same text
+		}
+	}()
 	l := parser.NewLexer(text)
 	toks, ok, _ := l.AllTokens(true)
 	if !ok {
